@@ -182,12 +182,19 @@ structure Cfg where
   ov : Nat
   /-- content id of the original recording -/
   c : Nat
+  /-- the number of frames the header (`fileSizeBytes` / `fileTimeSecs` of the `.meta`) announces.  The converter does not
+  use it: `self.nsamples = nsamples or self.sr.ns`, and `Reader.open` sets `sr.ns` to the number of COMPLETE FRAMES ON DISK
+  (`ns` above) whenever the header disagrees with the file (C11), so splitting and `check_NP24` cover every frame on disk. -/
+  hdrNs : Nat := ns
+  /-- the original `.bin` ends with a partial frame (trailing bytes after `ns` complete frames); those bytes are not samples -/
+  trailing : Bool := false
 deriving DecidableEq, Repr
 
 inductive Err
   | injected      -- the environment's exception
   | assertion     -- "data in original file and split files do no match"
   | noOriginal    -- `spikeglx.Reader(ap_file)` in the constructor: FileNotFoundError
+  | valueError    -- mtscomp refuses to compress a raw file whose size is not a whole number of frames
   | outOfScope    -- a call this model does not describe (never generated by the harness)
 deriving DecidableEq, Repr
 
@@ -329,6 +336,10 @@ def process24 (cfg : Cfg) (ob : Obj) (call : Call) (s : Disk) : Disk × Obj × R
 /-- `lf_file.exists() or lf_cbin_file.exists()` -/
 def lfExists (s : Disk) : Bool := (s.lf.bin != .absent) || s.lf.cbin.isSome
 
+/-- `self.sr.compress_file()` is reached (`0 < q`: no exception injected at that call) on a `.bin` with a trailing partial
+frame: mtscomp raises ValueError. -/
+def origCompressFails (cfg : Cfg) (ob : Obj) (q : Nat) : Bool := (ob.srForm == .bin) && cfg.trailing && decide (0 < q)
+
 /-- `_process_NP21` of the object `ob`.  `post_check` and `delete_original` are not consulted by this path; the object's
 reader follows the original when `compress_NP21` replaces the `.bin` by the `.cbin`. -/
 def process21 (cfg : Cfg) (ob : Obj) (call : Call) (s : Disk) : Disk × Obj × Result :=
@@ -347,6 +358,9 @@ def process21 (cfg : Cfg) (ob : Obj) (call : Call) (s : Disk) : Disk × Obj × R
     -- compress_NP21: the original first (unless self.sr.is_mtscomp), then the lf file
     let ncall := if ob.srForm = .bin then 2 else 1
     let q := stopAt call.interrupt Point.compressIdx ncall
+    -- self.sr.compress_file() on a `.bin` with a trailing partial frame: mtscomp.load_raw_data raises ValueError
+    -- ("The file size … is incompatible with the specified parameters") before anything is written
+    if origCompressFails cfg ob q then (s3, ob1, .raised .valueError) else
     let s4 : Disk :=
       if ob.srForm = .bin then
         if 0 < q then { s3 with orig := .cbin, och := true, otmp := false } else { s3 with otmp := true }
